@@ -1158,7 +1158,7 @@ def _log1(x):
     if isinstance(x, SymReal):
         from . import numfmt
 
-        if numfmt.active() and symx._innermost_repo_func() in symx.FORMAT_FUNCS:
+        if numfmt.numeric() and symx._innermost_repo_func() in symx.FORMAT_FUNCS:
             return numfmt.ln(x)  # the floor(log(x) / log(10)) idiom of the formatting code
         return symx.log(x)
     if isinstance(x, SymBool):
@@ -1178,7 +1178,7 @@ def _log10_1(x):
     if _is_sym(x):
         from . import numfmt
 
-        if numfmt.active() and not symx._in_raise_or_warn():
+        if numfmt.numeric() and not symx._in_raise_or_warn():
             return numfmt.log10(x)
         if symx.in_message_context():
             return 0.0  # inside report / table formatting: the rendered text is not the subject
@@ -1231,7 +1231,7 @@ def around(a, decimals=0):
         if _is_sym(x) or _is_sym(decimals):
             from . import numfmt
 
-            if numfmt.active() and not _is_sym(decimals) and not symx._in_raise_or_warn():
+            if numfmt.numeric() and not _is_sym(decimals) and not symx._in_raise_or_warn():
                 return numfmt.round_to(x, decimals, exact=False)
             if symx.in_message_context():
                 return 1.0  # placeholder (log10 of it is finite)
